@@ -164,6 +164,111 @@ def ref_title(sc, u, bi, cls, title):
     return full
 
 
+def clauses(sc, q, r):
+    """The clauses of the property text, evaluated on what the implementation left on disk / in shared memory /
+    returned. Returns (verdict, [(key, description)], file name, index entry); verdict: ok | crash | refused."""
+    pre, post = r["pre"], r["post"]
+    pb, ab_ = pre["boards"][q["b"]], post["boards"][q["b"]]
+    if r["status"] != 0:
+        orphan = sorted(set(ab_["files"]) - set(pb["files"]))
+        return "crash", [("crash", "bbs.CreateArticle panics for %s; files left behind in the board directory: %r, index %s" % (
+            describe(q), [n.decode("latin-1") for n in orphan], "unchanged" if ab_["dir"] == pb["dir"] else "changed"))], None, None
+    if r["err"] != 0 or r["summary"] is None:
+        return "refused", [], None, None
+    s = r["summary"]
+    bad = []
+    # one more index entry, earlier bytes unchanged
+    if not (len(ab_["dir"]) == len(pb["dir"]) + 128 and ab_["dir"][:len(pb["dir"])] == pb["dir"]):
+        bad.append(("index-grows-by-one", "len before %d, after %d, old bytes %s" % (len(pb["dir"]), len(ab_["dir"]), "unchanged" if ab_["dir"][:len(pb["dir"])] == pb["dir"] else "CHANGED")))
+    entry = ab_["dir"][-128:] if len(ab_["dir"]) >= 128 else b"\0" * 128
+    name = cstr(entry[0:28])
+    # ... naming a new article file; nothing else in the board directory changes; the other board is untouched
+    newf = sorted(set(ab_["files"]) - set(pb["files"]))
+    gone = sorted(set(pb["files"]) - set(ab_["files"]))
+    changed = sorted(n for n in pb["files"] if n in ab_["files"] and pb["files"][n] != ab_["files"][n])
+    if newf != [name] or gone or changed or name in pb["files"]:
+        bad.append(("directory-diff", "entry names %r; new files %r, removed %r, changed %r" % (name, newf, gone, changed)))
+    shape = re.fullmatch(rb"M\.\d{10}\.A\.[0-9A-F]{3}", name)
+    if not shape:
+        bad.append(("file-name-shape", "entry names %r" % name))
+    for ob_ in range(len(pre["boards"])):
+        if ob_ != q["b"] and pre["boards"][ob_] != post["boards"][ob_]:
+            bad.append(("other-board-untouched", "board %s changed by a post to %s" % (BOARDS[ob_], BOARDS[q["b"]])))
+    # owner, title, date
+    want_title = ref_title(sc, q["u"], q["b"], q["cls"], q["title"])
+    if entry[34:48] != (cstr(sc["users"][q["u"]]["id"]) + b"\0" * 14)[:14]:
+        bad.append(("owner-recorded", "owner field %r" % entry[34:48]))
+    if entry[54:119] != (want_title[:65] + b"\0" * 65)[:65]:
+        bad.append(("title-recorded", "title field %r, expected the first 65 bytes of %r" % (entry[54:119], want_title)))
+    stamp_t = int(name[2:12]) if shape else 0
+    if entry[48:54] != ref_datemd(stamp_t) + b"\0":
+        bad.append(("date-recorded", "date field %r for stamp time %d" % (entry[48:54], stamp_t)))
+    if not (r["t0"] + 1 <= stamp_t <= r["t1"] + 8):
+        bad.append(("stamp-time", "stamp time %d outside [%d, %d]" % (stamp_t, r["t0"] + 1, r["t1"] + 8)))
+    # the file holds header, every submitted line (trimmed, defused), signature (and the URL line)
+    got_file = ab_["files"].get(name, b"<missing>")
+    wants = [ref_article(sc, q["u"], q["b"], want_title, t, q["lines"], name) for t in range(r["t0"], r["t1"] + 1)]
+    if got_file not in wants:
+        bad.append(("file-content", "file %r holds %r, expected %r" % (name, got_file[:400], wants[0][:400])))
+    # cached count = index length; author's counter + 1, nobody else's
+    if ab_["total"] != len(ab_["dir"]) // 128:
+        bad.append(("cached-total", "Shm.Total %d, index holds %d entries" % (ab_["total"], len(ab_["dir"]) // 128)))
+    wantnp = [n + (1 if i == q["u"] else 0) for i, n in enumerate(pre["numposts"])]
+    if post["numposts"] != wantnp:
+        bad.append(("numposts", "NumPosts %r -> %r, expected %r" % (pre["numposts"], post["numposts"], wantnp)))
+    # the returned id fetches exactly that file; the listing shows the entry
+    if r["fetch"]["err"] != 0 or r["fetch"]["content"] != got_file:
+        bad.append(("fetch-by-id", "GetArticle(%r): err=%d, %d bytes, file has %d bytes" % (s["aid"], r["fetch"]["err"], len(r["fetch"]["content"]), len(got_file))))
+    if s["filename"] != name:
+        bad.append(("summary-filename", "summary names %r, index entry names %r" % (s["filename"], name)))
+    l = r["list"]
+    if l["err"] != 0 or l["aid"] != s["aid"] or l["filename"] != name or l["fulltitle"] != cstr(entry[54:119]):
+        bad.append(("listing", "LoadGeneralArticles newest entry: err=%d aid=%r filename=%r title=%r" % (l["err"], l["aid"], l["filename"], l["fulltitle"])))
+    return "ok", bad, name, entry
+
+
+def parse_scenario(line):
+    cu = Cur(line.split()); cu.num()
+    sc = {"users": [], "boards": []}
+    for _ in range(cu.num()):
+        priv = cu.num() == 1; uid = cu.num(); level = cu.num()
+        sc["users"].append({"priv": priv, "uid": uid, "level": level, "id": cu.blob(), "nick": cu.blob()})
+    for _ in range(cu.num()):
+        bid = cu.num(); attr = cu.num(); name = cu.blob()
+        sc["boards"].append({"bid": bid, "attr": attr, "name": name, "mods": [cu.num() for _ in range(cu.num())]})
+    return sc
+
+
+def replay(path):
+    """./check C09 --replay f: re-run the recorded requests on the implementation built from the current tree and
+    re-evaluate every clause on the last one."""
+    import json
+    obj = json.load(open(path))
+    print("replay of %s: %s" % (path, obj.get("what", "")))
+    reqs = obj.get("requests")
+    if not reqs:
+        print(json.dumps(obj, indent=1)[:4000])
+        print("(no replayable request list: this replay names the obligation/correspondence that no longer checks)")
+        sys.exit(1)
+    qs = [{"u": x["u"], "b": x["b"], "seed": x["seed"], "cls": bytes(x["cls"]), "title": bytes(x["title"]), "lines": [bytes(l) for l in x["lines"]], "kind": "replay"} for x in reqs]
+    impl = vf.build_impl()
+    out = vf.run_impl(impl, "C09", ["0", "2"] + [impl_line(q) for q in qs], deadline_ms=20000)
+    sc = parse_scenario(out[0])
+    violated = False
+    for i, q in enumerate(qs):
+        t = out[2 + i].split()
+        if t[0] == "2":
+            print("request %d: %s\n  -> hang" % (i, describe(q))); violated = True
+            continue
+        verdict, bad, name, entry = clauses(sc, q, parse_post(out[2 + i]))
+        print("request %d: %s\n  -> %s %s" % (i, describe(q), verdict, "; ".join("%s: %s" % b for b in bad) if bad else ("file %s" % name.decode() if name else "")))
+        if i == len(qs) - 1 and (verdict != "ok" or bad):
+            violated = True
+    vf.ipc_cleanup()
+    print("replay: %s" % ("property still violated on this input" if violated else "input now behaves"))
+    sys.exit(1 if violated else 0)
+
+
 # ------------------------------------------------------------------ case generation
 def gen_cases(c):
     rng = c.rng
@@ -267,6 +372,8 @@ def describe(q):
 
 
 def main():
+    if "--replay" in sys.argv[1:-1]:
+        replay(sys.argv[sys.argv.index("--replay") + 1])
     c = vf.Check("C09")
     thorough = c.tier == "thorough"
     c.prove()
@@ -284,15 +391,7 @@ def main():
             lines.append(impl_line(q))
     out = vf.run_impl(impl, "C09", lines, deadline_ms=20000)
 
-    # scenario description reported by the driver
-    cu = Cur(out[0].split()); cu.num()
-    sc = {"users": [], "boards": []}
-    for _ in range(cu.num()):
-        priv = cu.num() == 1; uid = cu.num(); level = cu.num()
-        sc["users"].append({"priv": priv, "uid": uid, "level": level, "id": cu.blob(), "nick": cu.blob()})
-    for _ in range(cu.num()):
-        bid = cu.num(); attr = cu.num(); name = cu.blob()
-        sc["boards"].append({"bid": bid, "attr": attr, "name": name, "mods": [cu.num() for _ in range(cu.num())]})
+    sc = parse_scenario(out[0])      # scenario description reported by the driver
 
     results = {}
     for (li, gi, qi) in index:
@@ -301,7 +400,8 @@ def main():
     # ------------------------------------------------------------ direct predicates from the property text
     def replay_obj(gi, qi, extra=None):
         cases = ["2"] + [impl_line(q) for q in groups[gi][:qi + 1]]
-        o = {"cases": cases, "request": describe(groups[gi][qi])}
+        o = {"cases": cases, "request": describe(groups[gi][qi]),
+             "requests": [{"u": q["u"], "b": q["b"], "seed": q["seed"], "cls": list(q["cls"]), "title": list(q["title"]), "lines": [list(l) for l in q["lines"]]} for q in groups[gi][:qi + 1]]}
         if extra:
             o.update(extra)
         return o
@@ -311,73 +411,22 @@ def main():
         q = groups[gi][qi]
         r = results[(gi, qi)]
         c.count(1, q["kind"])
-        pre, post = r["pre"], r["post"]
-        pb, ab_ = pre["boards"][q["b"]], post["boards"][q["b"]]
+        verdict, bad, name, entry = clauses(sc, q, r)
         full = (b"[" + q["cls"] + b"] " + q["title"]) if q["cls"] else q["title"]
         short = len(full) < len(TAG)
-        if r["status"] != 0:
-            orphan = sorted(set(ab_["files"]) - set(pb["files"]))
+        if verdict == "crash":
             key = "crash:title-shorter-than-tag" if (short and not role_ok(sc, q["u"], q["b"])) else "crash:other"
-            c.violation(key, "bbs.CreateArticle panics for %s; files left behind in the board directory: %r, index %s" % (
-                describe(q), [n.decode("latin-1") for n in orphan], "unchanged" if ab_["dir"] == pb["dir"] else "changed"),
-                replay_obj(gi, qi, {"expected_behaviour": "status 0 (the author may post on this board)", "got": "status 1 (panic)"}))
+            c.violation(key, bad[0][1], replay_obj(gi, qi, {"expected_behaviour": "status 0 (the author may post on this board)", "got": "status 1 (panic)"}))
             continue
-        if r["err"] != 0 or r["summary"] is None:
+        if verdict == "refused":
             c.broken.append({"kind": "correspondence", "where": "CreateArticle refused a permitted request", "theorem": "correspondence post(success path)",
                              "examples": [describe(q)], "log": ""})
             continue
-        s = r["summary"]
-        bad = []
-        # one more index entry, earlier bytes unchanged
-        if not (len(ab_["dir"]) == len(pb["dir"]) + 128 and ab_["dir"][:len(pb["dir"])] == pb["dir"]):
-            bad.append(("index-grows-by-one", "len before %d, after %d, old bytes %s" % (len(pb["dir"]), len(ab_["dir"]), "unchanged" if ab_["dir"][:len(pb["dir"])] == pb["dir"] else "CHANGED")))
-        entry = ab_["dir"][-128:] if len(ab_["dir"]) >= 128 else b"\0" * 128
-        name = cstr(entry[0:28])
-        # ... naming a new article file; nothing else in the board directory changes; the other board is untouched
-        newf = sorted(set(ab_["files"]) - set(pb["files"]))
-        gone = sorted(set(pb["files"]) - set(ab_["files"]))
-        changed = sorted(n for n in pb["files"] if n in ab_["files"] and pb["files"][n] != ab_["files"][n])
-        if newf != [name] or gone or changed or name in pb["files"]:
-            bad.append(("directory-diff", "entry names %r; new files %r, removed %r, changed %r" % (name, newf, gone, changed)))
-        if not re.fullmatch(rb"M\.\d{10}\.A\.[0-9A-F]{3}", name):
-            bad.append(("file-name-shape", "entry names %r" % name))
-        for ob_ in range(len(pre["boards"])):
-            if ob_ != q["b"] and pre["boards"][ob_] != post["boards"][ob_]:
-                bad.append(("other-board-untouched", "board %s changed by a post to %s" % (BOARDS[ob_], BOARDS[q["b"]])))
-        # owner, title, date
-        want_title = ref_title(sc, q["u"], q["b"], q["cls"], q["title"])
-        if entry[34:48] != (cstr(sc["users"][q["u"]]["id"]) + b"\0" * 14)[:14]:
-            bad.append(("owner-recorded", "owner field %r" % entry[34:48]))
-        if entry[54:119] != (want_title[:65] + b"\0" * 65)[:65]:
-            bad.append(("title-recorded", "title field %r, expected the first 65 bytes of %r" % (entry[54:119], want_title)))
-        stamp_t = int(name[2:12]) if re.fullmatch(rb"M\.\d{10}\.A\.[0-9A-F]{3}", name) else 0
-        if entry[48:54] != ref_datemd(stamp_t) + b"\0":
-            bad.append(("date-recorded", "date field %r for stamp time %d" % (entry[48:54], stamp_t)))
-        if not (r["t0"] + 1 <= stamp_t <= r["t1"] + 8):
-            bad.append(("stamp-time", "stamp time %d outside [%d, %d]" % (stamp_t, r["t0"] + 1, r["t1"] + 8)))
-        # the file holds header, every submitted line (trimmed, defused), signature (and the URL line)
-        got_file = ab_["files"].get(name, b"<missing>")
-        wants = [ref_article(sc, q["u"], q["b"], want_title, t, q["lines"], name) for t in range(r["t0"], r["t1"] + 1)]
-        if got_file not in wants:
-            bad.append(("file-content", "file %r holds %r, expected %r" % (name, got_file[:400], wants[0][:400])))
-        # cached count = index length; author's counter + 1, nobody else's
-        if ab_["total"] != len(ab_["dir"]) // 128:
-            bad.append(("cached-total", "Shm.Total %d, index holds %d entries" % (ab_["total"], len(ab_["dir"]) // 128)))
-        wantnp = [n + (1 if i == q["u"] else 0) for i, n in enumerate(pre["numposts"])]
-        if post["numposts"] != wantnp:
-            bad.append(("numposts", "NumPosts %r -> %r, expected %r" % (pre["numposts"], post["numposts"], wantnp)))
-        # the returned id fetches exactly that file; the listing shows the entry
-        if r["fetch"]["err"] != 0 or r["fetch"]["content"] != got_file:
-            bad.append(("fetch-by-id", "GetArticle(%r): err=%d, %d bytes, file has %d bytes" % (s["aid"], r["fetch"]["err"], len(r["fetch"]["content"]), len(got_file))))
-        if s["filename"] != name:
-            bad.append(("summary-filename", "summary names %r, index entry names %r" % (s["filename"], name)))
-        l = r["list"]
-        if l["err"] != 0 or l["aid"] != s["aid"] or l["filename"] != name or l["fulltitle"] != cstr(entry[54:119]):
-            bad.append(("listing", "LoadGeneralArticles newest entry: err=%d aid=%r filename=%r title=%r" % (l["err"], l["aid"], l["filename"], l["fulltitle"])))
-        # (the recorded modification time is the file system's coarse clock: it may lag time.Now() by a tick, so it is
-        #  an observed input of the model and no clause of the property; only counted here)
-        if not (r["t0"] <= s["mtime"] <= r["t1"]):
-            c.cov["distribution"]["mtime outside [t0,t1] (coarse fs clock)"] = c.cov["distribution"].get("mtime outside [t0,t1] (coarse fs clock)", 0) + 1
+        if r["t0"] > r["summary"]["mtime"] or r["summary"]["mtime"] > r["t1"]:
+            # the recorded modification time is the file system's coarse clock: it may lag time.Now() by a tick, so it
+            # is an observed input of the model and no clause of the property; only counted
+            k_ = "mtime outside [t0,t1] (coarse fs clock)"
+            c.cov["distribution"][k_] = c.cov["distribution"].get(k_, 0) + 1
         for (k, d) in bad:
             c.violation(k + (":short-title" if short else ""), "%s — %s" % (d, describe(q)), replay_obj(gi, qi, {"got": d}))
         if not bad:
